@@ -33,7 +33,10 @@ Record segment := SG {
   sg_cbs : list cbobs;
   sg_results : list outcome;                  (* after Flush, per case query *)
   sg_pubs : list pub;                         (* handler layer: published, in order *)
-  sg_ar2 : list (list (bytes * qd));          (* AffectedResources of "t.p.$x" per call: rid and its query *)
+  sg_ar2 : list (list (bytes * option qd));   (* AffectedResources of "t.p.$x" per call: rid and its query;
+                                                 None = an injected resource whose resourceEvent fails (no
+                                                 handler serves it / its RequestHandler rejects the parameter) *)
+  sg_ar2pos : list nat;                       (* length of sg_pubs when that call was made *)
   sg_ar4 : list (list bytes);                 (* AffectedResources of "t.qp.$i" per call *)
   sg_resps : list respobs;
   sg_fresh : list (option rvalue)             (* get per subscription after the segment; None = error *)
@@ -43,6 +46,7 @@ Record c14case := C14 {
   c_queries : list qd;
   c_handlers : bool;
   c_delayed : bool;                 (* the gateway answers query events only after the segment's Flush *)
+  c_inject : bool;                  (* AffectedResources of "t.p.$x" also returns failing resources *)
   c_subs : list sub;
   c_segs : list segment
 }.
@@ -77,10 +81,11 @@ Definition sub_lookup (subs : list sub) (rid cq : bytes) : option (iquery val) :
   | Some s => Some (to_iq (s_q s))
   | None => None
   end.
-Fixpoint assoc_qd (rid : bytes) (l : list (bytes * qd)) : option (iquery val) :=
+Fixpoint assoc_qd (rid : bytes) (l : list (bytes * option qd)) : option (iquery val) :=
   match l with
   | [] => None
-  | (r, q) :: l' => if beq rid r then Some (to_iq q) else assoc_qd rid l'
+  | (r, oq) :: l' => if beq rid r then match oq with Some q => Some (to_iq q) | None => None end
+                     else assoc_qd rid l'
   end.
 
 (* the transformers of the harness map id to the reference "t.item.<id>" *)
@@ -95,7 +100,7 @@ Definition h1 : hq :=
   QH TCollection rid_all false None (Some (fun rid => if beq rid rid_all then Some (to_iq q_all) else None))
      nilq (fun _ => true) TrNone None.
 (* "t.p.$x": ordinary collection with a path parameter, AffectedResources, IDToRIDCollectionTransformer *)
-Definition h2 (ar : list (bytes * qd)) : hq :=
+Definition h2 (ar : list (bytes * option qd)) : hq :=
   QH TCollection [116; 46; 112; 46; 36; 120] true None (Some (fun rid => assoc_qd rid ar))
      nilq (fun _ => true) (TrColl item_ref) (Some (fun _ => map fst ar)).
 (* "t.q": query collection, QueryRequestHandler *)
@@ -110,12 +115,12 @@ Definition hpubs (h : hq) (c : change val) : list pub := fst (handle_change bs_s
 Definition handler_of (subs : list sub) (s : sub) : hq :=
   if beq (s_rid s) rid_all then h1
   else if s_isq s then (if beq (s_rid s) rid_q then h3 subs else h4 subs [])
-  else h2 [(s_rid s, s_q s)].
+  else h2 [(s_rid s, Some (s_q s))].
 
 (* pubs of the four handlers for the key-changing changes, consuming the
    recorded AffectedResources outputs *)
 Fixpoint model_pubs (subs : list sub) (cs : list (change val))
-                    (ar2 : list (list (bytes * qd))) (ar4 : list (list bytes)) : list pub :=
+                    (ar2 : list (list (bytes * option qd))) (ar4 : list (list bytes)) : list pub :=
   match cs with
   | [] => []
   | c :: r =>
@@ -199,6 +204,31 @@ Fixpoint kc_states (st : vstore val) (cs : list (change val)) : list (vstore val
 
 Definition nth_bool (l : list bool) (k : nat) : bool := nth k l false.
 
+(* (store before, store after) of each key-changing change *)
+Fixpoint kc_pairs (st : vstore val) (cs : list (change val)) : list (vstore val * vstore val) :=
+  match cs with
+  | [] => []
+  | c :: r => let st' := apply_change st c in
+              if key_changed idxs c then (st, st') :: kc_pairs st' r else kc_pairs st' r
+  end.
+(* the announced resources walked before the first failing one *)
+Fixpoint before_fail (ar : list (bytes * option qd)) : list (bytes * qd) :=
+  match ar with
+  | (r, Some q) :: t => (r, q) :: before_fail t
+  | _ => []
+  end.
+(* the resets "t.p.$x" published for one change: from its AffectedResources call on *)
+Fixpoint leading_resets (ps : list pub) : list pub :=
+  match ps with
+  | PReset r :: t => PReset r :: leading_resets t
+  | _ => []
+  end.
+Definition resets_ok (pubs : list pub) (p : (vstore val * vstore val) * (list (bytes * option qd) * nat)) : bool :=
+  let '((stb, sta), (ar, pos)) := p in
+  let mine := leading_resets (skipn pos pubs) in
+  forallb (fun rq => outcome_eqb (spec_on stb (snd rq)) (spec_on sta (snd rq))
+                     || existsb (pub_eqb (PReset (fst rq))) mine) (before_fail ar).
+
 Definition precise_ok (qs : list qd) (x : cbobs) : bool :=
   forallb (fun p => let '(q, aff) := p in
      negb aff ||
@@ -221,9 +251,11 @@ Fixpoint indexed {A} (i : nat) (l : list A) : list (nat * A) :=
    3 Events reports affected although neither the old nor the new key matches the query
    4 a query run inside a callback does not see the mutation (result <> scan of the values after it)
    5 a subscribed client is not coherent with a fresh get after the segment
+   7 an ordinary resource announced by AffectedResources before any failing resource of the same
+     change, and whose result changed with that change, was not reset
    6 after Flush a query does not return the scan of the values the store holds (the
      index lost or kept entries: index updates applied out of commit order) *)
-Fixpoint viol_segs (qs : list qd) (hon : bool) (subs : list sub) (st : vstore val)
+Fixpoint viol_segs (qs : list qd) (hon inject : bool) (subs : list sub) (st : vstore val)
                    (prev : list outcome) (fresh_prev : list (option rvalue)) (segs : list segment) : list N :=
   match segs with
   | [] => []
@@ -242,15 +274,21 @@ Fixpoint viol_segs (qs : list qd) (hon : bool) (subs : list sub) (st : vstore va
                 (indexed 0 (combine prev (sg_results sg))) then [] else [2]) ++
     (if forallb (precise_ok qs) (sg_cbs sg) then [] else [3]) ++
     (if seen_ok cb0 && seen_ok cb1 then [] else [4]) ++
-    (if negb hon || forallb (fun p => let '(i, (s, (b, f))) := p in orv_eqb (view_after sg i s b f) f)
+    (* with injected failures the unchanged code skips the resources after a failing one (modelled
+       exactly, M6): the "t.p.$x" subscriptions are then judged per change by code 7, not by code 5 *)
+    (if negb hon || forallb (fun p => let '(i, (s, (b, f))) := p in
+                               (inject && negb (s_isq s) && negb (beq (s_rid s) rid_all))
+                               || orv_eqb (view_after sg i s b f) f)
                             (indexed 0 (combine subs (combine fresh_prev (sg_fresh sg)))) then [] else [5]) ++
+    (if negb hon || forallb (resets_ok (sg_pubs sg))
+                            (combine (kc_pairs st cs) (combine (sg_ar2 sg) (sg_ar2pos sg))) then [] else [7]) ++
     (if outcomes_eqb (map (spec_on (fold_left apply_change cs st)) qs) (sg_results sg) then [] else [6]) ++
-    viol_segs qs hon subs (fold_left apply_change cs st) (sg_results sg)
+    viol_segs qs hon inject subs (fold_left apply_change cs st) (sg_results sg)
               (if hon then sg_fresh sg else fresh_prev) r
   end.
 
 Definition viol_case (c : c14case) : list N :=
-  nodup N.eq_dec (viol_segs (c_queries c) (c_handlers c) (c_subs c) []
+  nodup N.eq_dec (viol_segs (c_queries c) (c_handlers c) (c_inject c) (c_subs c) []
                             (map (fun _ => FOk []) (c_queries c))
                             (map (fun s => Some (if beq (s_rid s) rid_qp0 || beq (s_rid s) rid_qp1
                                                  then VModel [] else VColl [])) (c_subs c)) (c_segs c)).
